@@ -442,6 +442,15 @@ func (g *gen) forEachBase(depth, size int, fn func(i int, mk func() *Op) bool) i
 	i := 0
 	q := g.e.schema.Types["Query"]
 	m := g.e.schema.Types["Mutation"]
+	// FIRST (a deadline cap must not cut them off) the small family of fragment-free selections of abstract
+	// fields (root fields and below every resolver / @requires answer), see deep_test.go. They are sharded by
+	// their own index, so that the shard of every other operation is what it was without them.
+	deep := g.deepAbstractOps()
+	for k, mk := range deep {
+		if !fn(k, mk) {
+			return k
+		}
+	}
 	emit := func(mk func() *Op) bool {
 		ok := fn(i, mk)
 		i++
